@@ -716,16 +716,27 @@ func c13Scenarios(tier string) []Scenario {
 	}
 	a1 := []RK{ROffer1, ROffer2, ROfferNoSID, RAck1, RNak1, RWrongXid, RWrongHW, RGarbage}
 	a2 := []RK{RAck1, RAck2, RNak1, RNak2, ROffer1, RWrongXid, RAckNoSID, RGarbage, RWrongHW}
-	n1, n2 := 2, 2
+	n1, n2 := 2, 3
+	stride := 20
 	if thorough {
-		n2 = 3
+		n1, stride = 3, 7
 	}
 	i := 0
+	if thorough {
+		// additionally: short first phases against every reply list of length 4
+		for _, p1 := range rkSeqs(a1, 1) {
+			for _, p2 := range rkSeqs(a2, 4) {
+				if len(p2) == 4 {
+					add(&ExScenario{Op: "request", P1: p1, P2: p2})
+				}
+			}
+		}
+	}
 	for _, p1 := range rkSeqs(a1, n1) {
 		for _, p2 := range rkSeqs(a2, n2) {
 			s := &ExScenario{Op: "request", P1: p1, P2: p2}
 			// preemption-bounded exploration on a deterministic stride
-			if i%20 == 0 && len(p1)+len(p2) <= 3 {
+			if i%stride == 0 && len(p1)+len(p2) <= 3 {
 				s.Bound = 1
 				if thorough {
 					s.Bound = 2
